@@ -188,6 +188,13 @@ def build_go():
     rc, o, e = run(["go", "build", "-o", os.path.join(BIN, "git-sizer"), "."], cwd=REPO, env=GOENV, timeout=900)
     if rc != 0:
         errs.append("git-sizer does not build: " + first_error(e))
+    # the same binary with the race detector (needs cgo); engines run it when VERIF_RACE=1
+    p = os.path.join(BIN, "git-sizer-race")
+    if os.path.exists(p):
+        os.remove(p)
+    rc, o, e = run(["go", "build", "-race", "-o", p, "."], cwd=REPO, env=dict(GOENV, CGO_ENABLED="1"), timeout=900)
+    if rc != 0 and not errs:
+        errs.append("git-sizer does not build with -race: " + first_error(e))
     return errs
 
 
